@@ -77,6 +77,14 @@ TV_NOTE = ("Trusted: TLC and the CommunityModules overrides; the harness encoder
 NOT_APPLICABLE = {}
 
 PROPS = {
+    "C01": dict(level="model_checking", nontrivial=nt_c01,
+                text="Histories of 10..30 operations (Filter, Sort, Slice, Select, Drop, Copy, Apply, FilteredApply, Eval, WithRowNums, Distinct, GroupBy/Aggregate/QFrames, "
+                     "typed views whose Slice() results are then overwritten, ToCSV/ToJSON/String/Equals), each applied to any member of the growing family, are executed on the real "
+                     "library; after every step every earlier frame, grouper and view is re-observed completely through the public API and TLC requires its digest to equal the one "
+                     "recorded at its birth (Persist in spec/QFTrace.tla), while the step's own result is judged against the operation's semantics.",
+                note=TV_NOTE + " Equality of two observations is decided by comparing 30-bit FNV digests of their canonical serialisation (a collision could hide a change).",
+                technique="TLA+ state machine over the family of frames (QFTrace.tla) + TLC trace validation with re-observation of all earlier members",
+                rule="random histories over random frames (0..40 rows quick, ..200 thorough); non-trivial = an event that re-observes >=2 earlier members; distinct by (operation, arguments, result digest)"),
     "C06": dict(level="model_checking", nontrivial=nt_c06,
                 text="Every Apply / FilteredApply / WithRowNums call of the generated scenarios (programs of up to 8 instructions over every supported signature, "
                      "constants, column copies, built-in ToUpper, sources and destinations overlapping, on frames with arbitrary physical index; every FilteredApply "
